@@ -29,8 +29,7 @@ fn opt_u32(s: &mut crate::vsrc::S) -> Option<u32> {
 
 // @unwind 2
 // @bound one on_incoming_flow step from an arbitrary sender flow state; all 32-bit values
-// @assume the sender is not ahead of the receiver's limit: delivery_count_snd -(mod 2^32) delivery_count_rcv <= link_credit_rcv
-// @desc link-credit_snd := delivery-count_rcv + link-credit_rcv - delivery-count_snd in RFC-1982 serial arithmetic; unset delivery-count => initial; unset link-credit => unchanged; drain => credit 0, delivery-count advanced, flow returned; echo => flow returned
+// @desc link-credit_snd := delivery-count_rcv + link-credit_rcv - delivery-count_snd in RFC-1982 serial arithmetic, floored at 0 when the deliveries in flight already exceed a reduced grant; unset delivery-count => initial; unset link-credit => unchanged; drain => credit 0, delivery-count advanced, flow returned; echo => flow returned
 pharness!(c08_sender_on_incoming_flow, |s| {
     let pre = any_inner(s);
     let st = VSenderFlow::new(pre);
@@ -44,15 +43,20 @@ pharness!(c08_sender_on_incoming_flow, |s| {
     };
     let out_handle = s.u32();
     let dc_rcv = flow.delivery_count.unwrap_or(pre.initial_delivery_count);
-    if let Some(lc_rcv) = flow.link_credit {
-        // precondition: what the sender already sent fits under the receiver's limit
-        s.assume(pre.delivery_count.wrapping_sub(dc_rcv) <= lc_rcv);
-    }
     let ret = st.on_incoming_flow(flow, out_handle);
     let post = st.snapshot();
 
+    // deliveries the receiver has not seen yet (serial arithmetic) come out of its grant; if they
+    // already exceed it (the receiver reduced the credit) nothing more may be sent: 0, not negative
     let expected_credit = match flow.link_credit {
-        Some(lc_rcv) => dc_rcv.wrapping_add(lc_rcv).wrapping_sub(pre.delivery_count),
+        Some(lc_rcv) => {
+            let in_flight = pre.delivery_count.wrapping_sub(dc_rcv);
+            if in_flight <= lc_rcv {
+                dc_rcv.wrapping_add(lc_rcv).wrapping_sub(pre.delivery_count)
+            } else {
+                0
+            }
+        }
         None => pre.link_credit,
     };
     if !flow.drain {
@@ -72,6 +76,7 @@ pharness!(c08_sender_on_incoming_flow, |s| {
     }
     vcover!(s, flow.link_credit.is_some() && !flow.drain && dc_rcv > 0xffff_ff00 && expected_credit > 0 && dc_rcv.checked_add(flow.link_credit.unwrap()).is_none(), "grant whose limit wraps past 2^32");
     vcover!(s, flow.drain && expected_credit > 0, "drain with credit outstanding");
+    vcover!(s, flow.link_credit.is_some() && !flow.drain && pre.delivery_count.wrapping_sub(dc_rcv) > flow.link_credit.unwrap() && pre.delivery_count.wrapping_sub(dc_rcv) < 100, "credit reduced below the deliveries in flight");
     vcover!(s, flow.delivery_count.is_none() && flow.link_credit.is_some(), "unset delivery-count");
     std::mem::forget(st);
 });
